@@ -2,6 +2,8 @@ package props
 
 import (
 	"fmt"
+	"mc/report"
+	"path/filepath"
 	"reflect"
 	"sync"
 
@@ -9,7 +11,7 @@ import (
 	"mc/refnas"
 )
 
-const nasTablePath = "/verif/mc/spec/ts24501.json"
+var nasTablePath = filepath.Join(report.VerifDir, "mc/spec/ts24501.json")
 
 var (
 	nasTableOnce sync.Once
